@@ -7,7 +7,7 @@ import itertools
 from ..core import AnalysisError, dotted, norm, qualname, short
 from ..driver import Knockout, sub_nth, sub_once
 from ..report import Ctx
-from ..rules import numeric
+from ..rules import numeric, shapes
 
 SRC = "graphiq/backends/state_rep_conversion.py"
 STATE = "graphiq/state.py"
@@ -36,6 +36,7 @@ def run(ctx: Ctx) -> None:
     numeric.rule_missing_return(ctx, STATE, only)
     numeric.rule_return_shape(ctx, SRC, "state_to_graph")
     rule_table_convert(ctx)
+    shapes.rule_graph_build(ctx)
     numeric.rule_gf2round(ctx, armed=[(SRC, "_graph_finder")],
                           advisory=[(SRC, "_phase_correction"), (LCE, "_solution_basis_finder"), (LCE, "_vec_solution_finder")])
     ctx.floor("flow.missing-return", 25)
@@ -89,6 +90,9 @@ def rule_table_convert(ctx: Ctx) -> None:
 
 
 KNOCKOUTS = [
+    Knockout("graph-build-zero-state", SRC, sub_once("    final_state = dmf.create_n_plus_state(n_qubits)", "    final_state = dmf.create_n_product_state(n_qubits, dmf.state_ketz0())"), "graph.build", "_graph_to_density_pure"),
+    Knockout("graph-build-cz-x", "graphiq/backends/density_matrix/functions.py", sub_once("cz = get_two_qubit_controlled_gate(n_qubits, control_qubit, target_qubit, sigmaz())", "cz = get_two_qubit_controlled_gate(n_qubits, control_qubit, target_qubit, sigmax())"), "graph.build", "apply_cz"),
+    Knockout("graph-build-blocks", SRC, sub_once("    return StabilizerTableau([np.eye(n_nodes), adj_matrix])", "    return StabilizerTableau([adj_matrix, np.eye(n_nodes)])"), "graph.build", "_graph_to_stabilizer_pure"),
     Knockout("G7-drop-return", SRC,
              sub_once("        graph = _density_to_graph_pure(input_matrix)\n        stabilizer = _graph_to_stabilizer_pure(graph)\n        return [(1.0, stabilizer)]",
                       "        graph = _density_to_graph_pure(input_matrix)\n        stabilizer = _graph_to_stabilizer_pure(graph)"),
